@@ -7,6 +7,11 @@ BASELINE = ("cd /repo && (cargo nextest run --workspace --no-fail-fast --tool-co
 
 # id -> (level, technique, level text, note, design ref)
 CHECKS = {
+ "C19": ("exploration",
+         "grammar-based property testing with an independent AST evaluator as oracle (proptest expressions + an exhaustive three-operand space + literal corpus + token soup + pathological inputs with a counting allocator)",
+         "750 k random expression ASTs (numbers with separators / exponents, pi / tau / inf / nan, + - * /, unary signs, parentheses, deg()/rad(), sexagesimal, !degrees / !radians tags, random blanks) rendered to text and compared bit for bit with an evaluator that never parses text; all 62208 three-operand expressions over 6 operands x 4 operators^2 x 3 parenthesisations x 3 tags x 2 targets; 96 k expressions with one documented error; a 96-spelling literal corpus plus 960 k random literals (option on == option off, f32 and f64, incl. f32 rounding midpoints); token soup and raw bytes for totality on a 1 MiB stack; pathological nests / digit runs / sign chains to 2e6 with allocation-count work bounds. Exploration.",
+         "where module docs and README disagree (untagged sexagesimal) both readings are accepted; nested unit functions, unknown tags, >1000 digits per token and 256-299 nesting levels are Free; linear work is checked on allocator calls and bytes, not time",
+         "DESIGN.md section 3 C19; notes/report-C19.md"),
  "C01": ("exploration",
          "exhaustive short token strings + grammar-based and mutation-based generation (proptest) + raw bytes + parameterised pathological inputs, every entry point x target family x option vectors per case on an 8 MiB-stack thread; crash / hang attribution through a per-case progress file and re-execution in fresh processes",
          "All strings of <= 3 tokens (thorough 4) over a 28-token indicator alphabet, grammar documents and 1-3 byte/token mutations of them, random bytes, BOM-prefixed (UTF-8/16/32) and truncated multi-byte input, and pathological nests / widths / document counts at and beyond the default budget limits; each case drives ~25 target types through every str / slice / multi-document / reader (3 chunkings) / iterator / closure / budget / validating entry point under 7 option vectors and renders every returned error 9 ways. Oracle: no panic, no process death (stack overflow, abort), iterator <= len+2 items, reader not polled > 10000 times after end of input. Exploration; termination is checked through work bounds and a watchdog, not proved.",
